@@ -87,6 +87,8 @@ def isinstance_names(call, args):
 
 
 class ObjMethod(StandIn):
+    _ev_callable = True
+
     """`obj.method` read as a value on an abstract object (dispatch tables `{Cls: self.method}`): calling it is
     answered by the rule's hook exactly like the direct call `obj.method(...)`"""
 
@@ -117,6 +119,8 @@ class ObjMethod(StandIn):
 
 
 class RepoFnValue(StandIn):
+    _ev_callable = True
+
     """a function of the repository used as a value (`f = IntegratePlanar.vertical; f(x)`): calling it is answered
     exactly like the direct call `IntegratePlanar.vertical(x)` (rule hook first, then the function's body)"""
 
